@@ -12,7 +12,7 @@ PROP = dict(
          'crossing the 8192-event chunk boundary, or nesting depth >= 2; distinct by SHA-1 of the case',
     floor=dict(quick=150, thorough=1500),
     assumptions=TRUST + ['Hypothesis 6.168 / CPython json module as the independent decoders',
-                         'event names are string literals at stable addresses (the recorder caches by pointer, documented) and JSON-safe'],
+                         'event names are string literals at stable addresses (the recorder caches by pointer, documented)'],
     bins=[dict(name='C20_shim', src='harness/C20_shim.cpp', cfg='tbb-asan', kind='aux'),
           dict(name='C20_hyp_images', kind='hyp', script='harness/C20_hyp.py', args=['images'], quick=dict(scale=1), thorough=dict(scale=10, seeds=3)),
           dict(name='C20_hyp_traces', kind='hyp', script='harness/C20_hyp.py', args=['traces'], quick=dict(scale=1), thorough=dict(scale=8, seeds=3))],
